@@ -313,9 +313,10 @@ func (httpDatasetSink *httpDatasetSink) GetConfig() map[string]interface{} {
 }
 
 type datasetSink struct {
-	DatasetName    string
-	Store          *server.Store
-	DatasetManager *server.DsManager
+	DatasetName        string
+	Store              *server.Store
+	DatasetManager     *server.DsManager
+	fullSyncGeneration uint64 // the fullsync this sink started, see endFullSync
 }
 
 func (datasetSink *datasetSink) startFullSync(runner *Runner) error {
@@ -323,13 +324,20 @@ func (datasetSink *datasetSink) startFullSync(runner *Runner) error {
 	if dataset == nil {
 		return fmt.Errorf("dataset does not exist: %v", datasetSink.DatasetName)
 	}
-	return dataset.StartFullSync()
+	err := dataset.StartFullSync()
+	datasetSink.fullSyncGeneration = dataset.FullSyncGeneration()
+	return err
 }
 
 func (datasetSink *datasetSink) endFullSync(ctx context.Context, runner *Runner) error {
 	dataset := datasetSink.DatasetManager.GetDataset(datasetSink.DatasetName)
 	if dataset == nil {
 		return fmt.Errorf("dataset does not exist: %v", datasetSink.DatasetName)
+	}
+	// only complete the fullsync this sink has started. if another fullsync was started on the dataset in the meantime
+	// (or the one of this sink has ended for another reason), completing would delete everything the other party has not written
+	if !dataset.FullSyncStarted() || dataset.FullSyncGeneration() != datasetSink.fullSyncGeneration {
+		return fmt.Errorf("fullsync of dataset %v was superseded by another fullsync, nothing is deleted", datasetSink.DatasetName)
 	}
 	err := dataset.CompleteFullSync(ctx)
 	if err != nil {
